@@ -346,6 +346,9 @@ def toolAdvD : ToolAdv TSt Nat Nat TRes where
     if raises item then (s', .raise)
     else if item.isDigit then (s', .ok (1000 + s.p, (List.range (item.toNat - '0'.toNat)).map fun j => s.p * 10 + j))
     -- `G` / `J`: `tool_calls` is a generator object yielding no / one call (response ids from 3000)
+    -- `h`: one call naming a tool nobody registered (ids from 5000); `m`: a registered call and a made-up one
+    else if item = 'h' then (s', .ok (1000 + s.p, [5000 + s.p * 10]))
+    else if item = 'm' then (s', .ok (1000 + s.p, [s.p * 10, 5000 + s.p * 10 + 1]))
     else if item = 'G' then (s', .ok (3000 + s.p, []))
     else if item = 'J' then (s', .ok (3000 + s.p, [s.p * 10]))
     -- `F`: a list subclass whose `__bool__` answers False although it holds a call (response ids from 4000)
@@ -357,6 +360,9 @@ def toolAdvD : ToolAdv TSt Nat Nat TRes where
     if raises (pick s.cs s.c 'r') then ({ s with c := s.c + 1 }, .raise)
     else ({ s with c := s.c + 1 }, .ok (2000 + s.c))
   exec s call :=
+    -- the real `Mitochondria.execute_tool_call` answers a call naming an unregistered tool with a failed result whose
+    -- error names the tool (no nonce); the scripted tool is not run.  A stub executor is scripted whatever the name.
+    if call ≥ 5000 && s.realMito then (s, .ok ⟨call, false, []⟩) else
     match pick s.ts s.e 'o' with
     | 'x' => ({ s with e := s.e + 1 }, if s.realMito then .ok ⟨call, false, [100 + s.e]⟩ else .raise)
     | 'u' => ({ s with e := s.e + 1 }, if s.realMito then .ok ⟨call, false, [100 + s.e]⟩ else .raise)
